@@ -159,6 +159,29 @@ def rule_SQ2(ctx, tier):
             rr.ok("%s inserts every column of %s" % (shortfn(fn), table))
         else:
             rr.fail("insert-coverage:%s" % shortfn(fn), "`%s` inserts %s; table %s has %s" % (shortfn(fn), i, table, sch[table]["columns"]), where=P.bodies[fn].span)
+    # upserts: on a conflict every inserted non-key column is rewritten (a column left out keeps its old value on disk while
+    # the in-memory copy takes the new one)
+    import re as _re
+    n_up = 0
+    for pref, sch in ((TDBM, tw), (PDBM, pl)):
+        for bid, b in P.bodies.items():
+            if not bid.startswith(pref) or "::tests::" in bid:
+                continue
+            for bb, st in sql.body_sql(b):
+                m = _re.search(r"INSERT INTO (\w+) ?\(([^)]*)\).*ON CONFLICT ?\(([^)]*)\) DO UPDATE SET (.*)$", sql.norm(st), _re.I)
+                if not m:
+                    continue
+                n_up += 1
+                table, cols = m.group(1), [c.strip() for c in m.group(2).split(",")]
+                keys = {c.strip() for c in m.group(3).split(",")}
+                sets = {c.split("=")[0].strip() for c in m.group(4).split(",")}
+                need = set(cols) - keys
+                if need <= sets:
+                    rr.ok("%s: upsert of %s rewrites %s on conflict" % (shortfn(bid), table, sorted(need)))
+                else:
+                    rr.fail("upsert-coverage:%s" % shortfn(bid), "`%s` upserts %s(%s) but on a conflict only rewrites %s: %s keep their old values on disk" % (shortfn(bid), table, ", ".join(cols), sorted(sets), sorted(need - sets)), where=b.line_of(bb))
+    if n_up < 1:
+        rr.fail("floor:upserts", "no INSERT .. ON CONFLICT .. DO UPDATE statement found (1 confirmed: store_tower_record)")
     # the refund UPDATE inside batch_remove_appointments writes available_slots keyed by user
     us = stmts(TDBM + "batch_remove_appointments", "update")
     if len(us) == 1 and us[0]["table"] == "users" and us[0]["columns"] == ["available_slots"] and "user_id" in us[0]["where"]:
